@@ -76,6 +76,10 @@ def calls(sig, maxposargs, maxstar, rnd, sample):
                 if declared:
                     sss.append(some([[{"str": True, "name": declared[-1]}, 41], [{"str": True, "name": "z"}, 42]]))
                 sss.append(some([[{"str": True, "name": "y"}, 43], [{"str": True, "name": "z"}, 44]]))
+                # surplus names that the named arguments never use: with a named z the callee's ** dict receives entries from
+                # BOTH sources, in call order (named first)
+                sss.append(some([[{"str": True, "name": "y"}, 45]]))
+                sss.append(some([[{"str": True, "name": "y"}, 46], [{"str": True, "name": "w"}, 47]]))
                 for star in stars:
                     for ss in sss:
                         if sample < 1.0 and rnd.random() > sample:
